@@ -141,9 +141,15 @@ def run(V, tier, want):
                     V.violation(e2, "definition, implementation and prepareCallHierarchy denote different definitions at one position")
                 if d is not None:
                     hv = rec["hover"] or ""
-                    m = re.search(r"\*\*from\*\* `([^`]*)`", hv)
-                    if not m or os.path.basename(m.group(1)) != os.path.basename(d[0]) or ("def %s(" % rec["name"]) not in hv:
+                    # the hover names the defining file relative to the workspace root: it must not name ANOTHER file
+                    # of the layout (wording / markup of the hover text is not judged)
+                    named = [p for p in texts if re.search(r"(^|[^\w/.])" + re.escape(p) + r"($|[^\w/.])", hv)]
+                    if not hv:
+                        V.violation(dict(e2, hover=hv), "no hover where go-to-definition finds a fixture")
+                    elif named and d[0] not in named:
                         V.violation(dict(e2, hover=hv), "hover describes another fixture than go-to-definition navigates to")
+                    elif rec["name"] not in hv:
+                        V.violation(dict(e2, hover=hv), "hover does not mention the fixture the cursor is on")
                 elif rec["hover"]:
                     V.violation(dict(e2, hover=rec["hover"]), "hover shows a fixture where go-to-definition finds none")
             if "c04" in want and rec["definition"] is not None:
